@@ -36,6 +36,7 @@ fn main() {
         }
         Some("calib") => calib(&args[2..]),
         Some("lexdiff") => lexdiff(),
+        Some("roundtrip") => roundtrip(&args[2], &args[3]),
         Some("dumpn") => dumpn(&args[2]),
         _ => {
             eprintln!("usage: vcheck t0scan [props]");
@@ -198,5 +199,22 @@ pub fn lexdiff() {
                 }
             }
         }
+    }
+}
+
+#[allow(dead_code)]
+pub fn roundtrip(path: &str, syn: &str) {
+    let src = std::fs::read_to_string(path).unwrap();
+    let syn = vlib::lex::Syntax::from_name(syn).unwrap();
+    match vlib::norm::parse(&src, syn) {
+        Ok(ast) => {
+            let printed = ast.to_string();
+            println!("parse ok; print==source: {}", printed == src);
+            if printed != src {
+                let (a, b) = vlib::oracle::first_line_diff(&src, &printed);
+                println!("first differing line: {a:?} vs {b:?}");
+            }
+        }
+        Err(e) => println!("parse error: {e}"),
     }
 }
